@@ -186,6 +186,10 @@ def bytearray_shim(x=(), *a):
         return SymBuf(x.items, x.read_log)
     if isinstance(x, ArrBuf):
         return x
+    if core._ENG is not None and not a and isinstance(x, (tuple, list)) and len(x) == 0:
+        # an empty buffer created by code under proof (Encoder.buf) may later receive symbolic
+        # bytes: start it as a SymBuf (a list-backed bytearray contract, exact on concrete bytes too)
+        return SymBuf([])
     if isinstance(x, (int, builtins.bytes, builtins.bytearray, str)):
         return builtins.bytearray(x, *a)
     items = list(x)
